@@ -134,11 +134,21 @@ def membership_dump(ctx, record, case) -> dict:
                     ctx.violate("area-section-cross-origin", {"area": key, "gene": str(g.location)}, case)
             if len(area.location.parts) > 1:
                 pre, post = ring.parts_of(area.location)
+                def straddles_the_gap(gene):
+                    # exons on both sides of the stretch the area leaves out, without crossing the origin: the gene is
+                    # contained part by part, but no section is 'the' right one for it (nothing states which)
+                    parts = ring.parts_of(gene.location)
+                    return (not ring.is_bridging(gene.location) and any(ring.covers([pre], [p]) for p in parts)
+                            and any(ring.covers([post], [p]) for p in parts))
                 for g in children.pre_origin:
-                    if not ring.covers([pre], ring.parts_of(g.location)):
+                    if straddles_the_gap(g):
+                        ctx.count("unspecified:section-of-gene-with-exons-on-both-sides-of-the-gap")
+                    elif not ring.covers([pre], ring.parts_of(g.location)):
                         ctx.violate("area-section-pre-origin", {"area": key, "gene": str(g.location)}, case)
                 for g in children.post_origin:
-                    if not ring.covers([post], ring.parts_of(g.location)):
+                    if straddles_the_gap(g):
+                        ctx.count("unspecified:section-of-gene-with-exons-on-both-sides-of-the-gap")
+                    elif not ring.covers([post], ring.parts_of(g.location)):
                         ctx.violate("area-section-post-origin", {"area": key, "gene": str(g.location)}, case)
     regions = record.get_regions()
     for g in genes:
